@@ -2,13 +2,15 @@ package main
 
 import (
 	"fmt"
+	"go/token"
+	"go/types"
 
 	"golang.org/x/tools/go/ssa"
 )
 
 func init() {
 	register("C06", "Decides the front end's share of 'one verifiable, append-only history' — faithful relaying — as structural necessary conditions: "+
-		"(R1) every STH returned by LogSTHGetter.GetSTH is built in that call from the backend root just fetched: TreeSize ← root.TreeSize, Timestamp ← root.TimestampNanos / 1 000 000 (ns → ms), SHA256RootHash ← root.RootHash, Version V1, signed by signV1TreeHead with the log's signer, and a signing error or empty signature is an error; getSignedLogRoot rejects backend errors, missing or garbled roots and hashes that are not 32 bytes; "+
+		"(R1) every STH returned by LogSTHGetter.GetSTH is built in that call from the backend root just fetched: TreeSize ← root.TreeSize, Timestamp ← root.TimestampNanos / 1 000 000 (ns → ms), SHA256RootHash ← root.RootHash, Version V1, signed by signV1TreeHead with the log's signer, and a signing error or empty signature is an error; the root is fetched exactly once per call (by the GetLatestSignedLogRoot RPC in the getter or by the one function it calls that issues it), the request goes to this instance's backend client with this instance's log id whichever way these values reach the RPC, and the function issuing the RPC rejects backend errors, missing or garbled roots and hashes that are not 32 bytes and hands on the root decoded from the reply; "+
 		"(R2) signV1TreeHead signs SHA-256 of SerializeSTHSignatureInput(*sth) with SHA-256 options and uses a cached signature only when the cache holds a signature for exactly those bytes; "+
 		"(R3) SignatureCache and ctutil.LogInfo state is accessed under its mutex; "+
 		"(R4) get-sth-consistency / get-proof-by-hash / get-entry-and-proof forward first/second, hash/tree_size, leaf_index/tree_size to the backend fields of the same meaning on this log and relay the proof hashes, leaf index and leaf bytes of the backend's reply; first = 0 ⇒ empty proof; writeSTH serialises the STH it was given; "+
@@ -20,10 +22,12 @@ func init() {
 
 func runC06(r *Run) {
 	r.Assume("the Trillian backend maintains an append-only Merkle tree and returns proofs for the sizes asked")
-	root := "trillian/ctfe.getSignedLogRoot(*)#0"
 
 	r.Rule("C06.R1")
 	if fn := r.Fn("(*trillian/ctfe.LogSTHGetter).GetSTH"); fn != nil {
+		// where the backend root comes from: one fetch (the RPC itself or the one helper issuing it), sent on this
+		// instance's client for this instance's log id, its failures rejected, its reply decoded
+		rf := c06RootFetch(r, fn, "GetSTH", "p0.li")
 		nOK := 0
 		for _, ret := range Returns(fn) {
 			if errKind(ret.Results[1]) != "nil" {
@@ -36,14 +40,22 @@ func runC06(r *Run) {
 				continue
 			}
 			r.Pass("GetSTH:fresh", r.Where(ret), "the returned STH is allocated in this call")
+			if rf == nil {
+				continue // undecided: already recorded by c06RootFetch
+			}
+			root := rf.root
 			r.ExpectFields(fn, "GetSTH", ret.Results[0], map[string]string{
 				"Version":  "0",
 				"TreeSize": root + ".TreeSize",
 			})
 			name := r.D.allocName(a)
+			for _, st := range r.StoresTo(fn, "&("+name+".TreeSize)") {
+				rf.after(r, "GetSTH.TreeSize", st)
+			}
 			for _, st := range r.StoresTo(fn, "&("+name+".Timestamp)") {
 				got := r.D.Lin(st.Val, nil).String()
 				r.Check("GetSTH.Timestamp", glob("+quo(+"+root+".TimestampNanos, +1000000)", got), r.Where(st), "Timestamp = "+got+" (backend nanoseconds / 1 000 000 = RFC 6962 milliseconds)")
+				rf.after(r, "GetSTH.Timestamp", st)
 			}
 			r.Check("GetSTH.Timestamp:set", len(r.StoresTo(fn, "&("+name+".Timestamp)")) == 1, r.Where(ret), "exactly one store to Timestamp")
 			// root hash copied from the backend root
@@ -51,6 +63,7 @@ func runC06(r *Run) {
 			for _, c := range CallsTo(fn, "copy") {
 				if r.D.D(CallArgs(c)[0]) == name+".SHA256RootHash[:]" && glob(root+".RootHash", r.D.D(CallArgs(c)[1])) {
 					okCopy = true
+					rf.after(r, "GetSTH.SHA256RootHash", c)
 				}
 			}
 			r.Check("GetSTH.SHA256RootHash", okCopy, r.Where(ret), "SHA256RootHash ← copy(root.RootHash)")
@@ -61,34 +74,14 @@ func runC06(r *Run) {
 			}
 		}
 		r.Check("GetSTH:success-return", nOK >= 1, r.FnPos(fn), fmt.Sprintf("%d success returns", nOK))
-		if c := r.OneCall(fn, "GetSTH:root", "trillian/ctfe.getSignedLogRoot"); c != nil {
-			r.ExpectArg(c, "GetSTH:root.client", 1, "p0.li.rpcClient")
-			r.ExpectArg(c, "GetSTH:root.logID", 2, "p0.li.logID")
+		// errors of the module's helpers (root fetch, signing) block the success return; when the fetch is done in
+		// GetSTH itself its failures are the edges checked by c06RootFetch
+		if rf != nil && rf.h == fn {
+			r.ErrorsGate(fn, "GetSTH:errors", "trillian/ctfe.*", 1)
+		} else {
+			r.ErrorsGate(fn, "GetSTH:errors", "trillian/ctfe.*", 2)
 		}
-		r.ErrorsGate(fn, "GetSTH:errors", "trillian/ctfe.*", 2)
 		r.FailEdge(fn, "GetSTH", EdgeSpec{Name: "empty-signature", Atom: ordAtomR("len(*.TreeHeadSignature.Signature)", "0"), Bad: "=", Want: wantErr(true)})
-	}
-	if fn := r.Fn("trillian/ctfe.getSignedLogRoot"); fn != nil {
-		if c := r.OneCall(fn, "getSignedLogRoot:rpc", "iface(trillian.TrillianLogClient).GetLatestSignedLogRoot"); c != nil {
-			r.ExpectArg(c, "getSignedLogRoot:client", 0, "p1")
-			r.ExpectFields(fn, "getSignedLogRoot:req", CallArgs(c)[2], map[string]string{"LogId": "p2"})
-		}
-		r.FailEdge(fn, "getSignedLogRoot", EdgeSpec{Name: "backend-error", Atom: nilAtom("iface(trillian.TrillianLogClient).GetLatestSignedLogRoot(*)#1"), Bad: "non", Want: wantErr(true)})
-		r.FailEdge(fn, "getSignedLogRoot", EdgeSpec{Name: "root-absent", Atom: nilAtom("iface(trillian.TrillianLogClient).GetLatestSignedLogRoot(*)#0.SignedLogRoot"), Bad: "nil", Want: wantErr(true)})
-		r.FailEdge(fn, "getSignedLogRoot", EdgeSpec{Name: "root-garbled", Atom: nilAtom("(*types.LogRootV1).UnmarshalBinary(*)"), Bad: "non", Want: wantErr(true)})
-		r.FailEdge(fn, "getSignedLogRoot", EdgeSpec{Name: "hash-size", Atom: ordAtomR("len("+decodedRoot(r, fn)+".RootHash)", "32"), Bad: "<,>", Want: wantErr(true)})
-		for _, ret := range Returns(fn) {
-			if errKind(ret.Results[1]) == "nil" {
-				a := baseAlloc(ret.Results[0])
-				ok := false
-				for _, c := range CallsTo(fn, "(*types.LogRootV1).UnmarshalBinary") {
-					if a != nil && baseAlloc(CallArgs(c)[0]) == a && glob("(*trillian.SignedLogRoot).GetLogRoot(iface(trillian.TrillianLogClient).GetLatestSignedLogRoot(*)#0.SignedLogRoot)", r.D.D(CallArgs(c)[1])) {
-						ok = true
-					}
-				}
-				r.Check("getSignedLogRoot:result", ok, r.Where(ret), "returns the root decoded from the backend's SignedLogRoot.LogRoot")
-			}
-		}
 	}
 
 	r.Rule("C06.R2")
@@ -132,22 +125,26 @@ func runC06(r *Run) {
 	if fn := r.Fn("(*trillian/ctfe.SignatureCache).GetSignature"); fn != nil {
 		_, err := r.D.Table(fn, nil, nil, []RuleAtom{{Name: "eq", Pat: "bytes.Equal(p1, p0.input)"}}, func(val map[string]string, reach *Reach, s Sigma) {
 			r.Valuations++
+			// what the returns that may execute hand out (a result that is spilled to a result variable because
+			// of a deferred unlock is read back through the store that precedes the return)
 			var oks []string
 			var sigs []string
-			eachInstr(fn, func(in ssa.Instruction) {
-				if st, ok := in.(*ssa.Store); ok && reach.Has(st) {
-					switch r.D.D(st.Addr) {
-					case "new:bool#0":
-						oks = append(oks, r.D.D(st.Val))
-					case "new:ct.DigitallySigned#0":
-						sigs = append(sigs, r.D.D(st.Val))
+			for _, ret := range reachableReturns(fn, reach) {
+				sigs = append(sigs, r.D.D(c06ReturnedValue(ret, 0)))
+				oks = append(oks, r.D.D(c06ReturnedValue(ret, 1)))
+			}
+			allAre := func(xs []string, want string) bool {
+				for _, x := range xs {
+					if x != want {
+						return false
 					}
 				}
-			})
+				return len(xs) >= 1
+			}
 			if val["eq"] == "T" {
-				r.Check("GetSignature[input-matches]", len(oks) == 1 && oks[0] == "true" && len(sigs) == 1 && sigs[0] == "p0.sig", r.FnPos(fn), fmt.Sprintf("input equal ⇒ (%v, %v)", sigs, oks))
+				r.Check("GetSignature[input-matches]", allAre(oks, "true") && allAre(sigs, "p0.sig"), r.FnPos(fn), fmt.Sprintf("input equal ⇒ (%v, %v)", sigs, oks))
 			} else {
-				r.Check("GetSignature[input-differs]", len(oks) == 1 && oks[0] == "false", r.FnPos(fn), fmt.Sprintf("input differs ⇒ ok=%v", oks))
+				r.Check("GetSignature[input-differs]", allAre(oks, "false"), r.FnPos(fn), fmt.Sprintf("input differs ⇒ ok=%v", oks))
 			}
 		})
 		if err != nil {
@@ -225,7 +222,7 @@ func c06Forwarding(r *Run) {
 			r.MustGuardAfter(fn, "consistency:first-zero-no-rpc", "ord(0, trillian/ctfe.parseGetSTHConsistencyRange(p3)#0)", "=", []ssa.Instruction{c}, "GetConsistencyProof")
 		}
 		if j := r.OneCall(fn, "consistency:json", "json.Marshal"); j != nil {
-			a := baseAlloc(CallArgs(j)[0])
+			a := baseAlloc(c06Built(CallArgs(j)[0], j))
 			if a != nil {
 				for _, st := range r.StoresTo(fn, "&("+r.D.allocName(a)+".Consistency)") {
 					got := r.D.D(st.Val)
@@ -266,7 +263,7 @@ func c06Forwarding(r *Run) {
 			})
 		}
 		if j := r.OneCall(fn, "proof:json", "json.Marshal"); j != nil {
-			r.ExpectFields(fn, "proof:rsp", CallArgs(j)[0], map[string]string{
+			r.ExpectFields(fn, "proof:rsp", c06Built(CallArgs(j)[0], j), map[string]string{
 				"LeafIndex": "iface(trillian.TrillianLogClient).GetInclusionProofByHash(*)#0.Proof[0].LeafIndex",
 				"AuditPath": "iface(trillian.TrillianLogClient).GetInclusionProofByHash(*)#0.Proof[0].Hashes || g:trillian/ctfe.emptyProof",
 			})
@@ -281,7 +278,7 @@ func c06Forwarding(r *Run) {
 			})
 		}
 		if j := r.OneCall(fn, "entry-proof:json", "json.Marshal"); j != nil {
-			r.ExpectFields(fn, "entry-proof:rsp", CallArgs(j)[0], map[string]string{
+			r.ExpectFields(fn, "entry-proof:rsp", c06Built(CallArgs(j)[0], j), map[string]string{
 				"LeafInput": "trillian/ctfe.rpcGetEntryAndProof(*)#0.Leaf.LeafValue",
 				"ExtraData": "trillian/ctfe.rpcGetEntryAndProof(*)#0.Leaf.ExtraData",
 				"AuditPath": "trillian/ctfe.rpcGetEntryAndProof(*)#0.Proof.Hashes",
@@ -304,7 +301,7 @@ func c06Forwarding(r *Run) {
 	}
 	if fn := r.Fn("trillian/ctfe.writeSTH"); fn != nil {
 		if j := r.OneCall(fn, "writeSTH:json", "json.Marshal"); j != nil {
-			r.ExpectFields(fn, "writeSTH", CallArgs(j)[0], map[string]string{
+			r.ExpectFields(fn, "writeSTH", c06Built(CallArgs(j)[0], j), map[string]string{
 				"TreeSize":          "p0.TreeSize",
 				"Timestamp":         "p0.Timestamp",
 				"SHA256RootHash":    "p0.SHA256RootHash[:]",
@@ -380,4 +377,348 @@ func c06Client(r *Run) {
 		c := r.P.LookupConst(name)
 		r.Check("const:"+name, c != nil && c.Val().ExactString() == want, "-", name+" = "+want)
 	}
+}
+
+// ---- C06.R1: the fetch of the backend's latest root ---------------------------------------------------------
+
+const latestRootRPC = "iface(trillian.TrillianLogClient).GetLatestSignedLogRoot"
+
+// rootFetch is the one place a getter obtains the backend's latest log root from.
+type rootFetch struct {
+	fn   *ssa.Function       // the getter
+	h    *ssa.Function       // the function issuing the RPC: fn itself, or the helper fn calls
+	call ssa.CallInstruction // the call fn → h (nil when h == fn)
+	rpc  ssa.CallInstruction // the RPC in h
+	dec  ssa.CallInstruction // the (*types.LogRootV1).UnmarshalBinary call in h that decodes the reply
+	root string              // origin term of the fetched root in fn's frame
+}
+
+// c06RootFetch locates the fetch of the latest backend root in getter fn and decides, whichever way the values
+// travel (arguments of a helper in any order, fields of the instance read by the helper itself, or the helper's
+// body written out in fn):
+//   - there is exactly one fetch: one GetLatestSignedLogRoot RPC in fn, or one call to the module function issuing it;
+//   - the client the request is sent on is <li>.rpcClient and the request's LogId is <li>.logID, both rendered in
+//     fn's frame (the helper's parameters are replaced by the origin terms of the call's arguments);
+//   - a backend error, an absent root, an undecodable root and a root hash that is not 32 bytes can only reach error
+//     returns of the function issuing the RPC;
+//   - the root handed on is the value decoded from the reply's SignedLogRoot.LogRoot.
+//
+// k prefixes the keys; li is the origin term of the log instance in fn's frame.  nil ⇒ undecided (recorded).
+func c06RootFetch(r *Run, fn *ssa.Function, k, li string) *rootFetch {
+	rf := &rootFetch{fn: fn}
+	var sites []ssa.CallInstruction
+	sites = append(sites, CallsTo(fn, latestRootRPC)...)
+	nDirect := len(sites)
+	eachInstr(fn, func(in ssa.Instruction) {
+		ci, ok := in.(ssa.CallInstruction)
+		if !ok {
+			return
+		}
+		if f := ci.Common().StaticCallee(); f != nil && f != fn && len(f.Blocks) > 0 && len(CallsTo(f, latestRootRPC)) > 0 {
+			sites = append(sites, ci)
+		}
+	})
+	if len(sites) != 1 {
+		r.Fail(k+":root", r.FnPos(fn), fmt.Sprintf("expected exactly one fetch of the backend's latest root in %s (the %s RPC or one call of the function issuing it), found %d", FuncName(fn), latestRootRPC, len(sites)))
+		return nil
+	}
+	r.Pass(k+":root", r.Where(sites[0]), "one fetch of the backend's latest root: "+CalleeOf(sites[0]))
+	hk := k // key prefix of the obligations on the function issuing the RPC
+	if nDirect == 1 {
+		rf.h, rf.rpc = fn, sites[0]
+	} else {
+		rf.call = sites[0]
+		rf.h = rf.call.Common().StaticCallee()
+		rf.rpc = r.OneCall(rf.h, short(FuncName(rf.h))+":rpc", latestRootRPC)
+		if rf.rpc == nil {
+			return nil
+		}
+		hk = short(FuncName(rf.h))
+		r.Funcs[FuncName(rf.h)] = true
+	}
+	h := rf.h
+	// what reaches the RPC, in fn's frame
+	client := rf.toCaller(r, r.D.D(CallArgs(rf.rpc)[0]))
+	r.Check(k+":root.client", client == li+".rpcClient", r.Where(rf.rpc), fmt.Sprintf("the root is requested on %s (expected %s.rpcClient: this instance's backend client)", client, li))
+	if a := baseAlloc(CallArgs(rf.rpc)[2]); a == nil || a.Parent() != h {
+		r.Fail(k+":root.logID", r.Where(rf.rpc), "undecided: the request "+r.D.D(CallArgs(rf.rpc)[2])+" is not built in a local allocation of "+FuncName(h))
+	} else {
+		sts := r.StoresTo(h, "&("+r.D.allocName(a)+".LogId)")
+		if len(sts) == 0 {
+			r.Fail(k+":root.logID", r.Where(rf.rpc), "the request's LogId is never set")
+		}
+		for _, st := range sts {
+			got := rf.toCaller(r, r.D.D(st.Val))
+			r.Check(k+":root.logID", got == li+".logID", r.Where(st), fmt.Sprintf("request.LogId ← %s (expected %s.logID: this instance's tree)", got, li))
+		}
+	}
+	// failures of the fetch
+	r.FailEdge(h, hk, EdgeSpec{Name: "backend-error", Atom: nilAtom(latestRootRPC + "(*)#1"), Bad: "non", Want: wantErr(true)})
+	r.FailEdge(h, hk, EdgeSpec{Name: "root-absent", Atom: nilAtom(latestRootRPC + "(*)#0.SignedLogRoot"), Bad: "nil", Want: wantErr(true)})
+	r.FailEdge(h, hk, EdgeSpec{Name: "root-garbled", Atom: nilAtom("(*types.LogRootV1).UnmarshalBinary(*)"), Bad: "non", Want: wantErr(true)})
+	r.FailEdge(h, hk, EdgeSpec{Name: "hash-size", Atom: ordAtomR("len("+decodedRoot(r, h)+".RootHash)", "32"), Bad: "<,>", Want: wantErr(true)})
+	// the decoded reply
+	var dec []ssa.CallInstruction
+	for _, c := range CallsTo(h, "(*types.LogRootV1).UnmarshalBinary") {
+		if glob("(*trillian.SignedLogRoot).GetLogRoot("+latestRootRPC+"(*)#0.SignedLogRoot)", r.D.D(CallArgs(c)[1])) {
+			dec = append(dec, c)
+		}
+	}
+	var da *ssa.Alloc
+	if len(dec) == 1 {
+		da = baseAlloc(CallArgs(dec[0])[0])
+	}
+	if da == nil || da.Parent() != h {
+		r.Fail(hk+":result", r.FnPos(h), fmt.Sprintf("undecided: expected exactly one decoding of the reply's SignedLogRoot.LogRoot into a local root in %s, found %d", FuncName(h), len(dec)))
+		return nil
+	}
+	rf.dec = dec[0]
+	if h == fn {
+		rf.root = r.D.allocName(da)
+		// nothing else writes the decoded root
+		n := len(r.StoresTo(fn, "&("+rf.root+"*")) + len(r.StoresTo(fn, rf.root))
+		r.Check(hk+":result", n == 0, r.Where(rf.dec), fmt.Sprintf("the root used is the one decoded from the backend's SignedLogRoot.LogRoot (%d other writes to it)", n))
+		return rf
+	}
+	rf.root = FuncName(h) + "(*)#0"
+	for _, ret := range Returns(h) {
+		if errKind(ret.Results[len(ret.Results)-1]) == "nil" {
+			r.Check(hk+":result", baseAlloc(ret.Results[0]) == da, r.Where(ret), "returns the root decoded from the backend's SignedLogRoot.LogRoot")
+		}
+	}
+	return rf
+}
+
+// after: when the root is decoded in the getter itself, a use of its fields must come after the decoding
+// (a helper's result is only available after the helper ran, so nothing is to be shown then).
+func (rf *rootFetch) after(r *Run, key string, use ssa.Instruction) {
+	if rf.h != rf.fn || rf.dec == nil {
+		return
+	}
+	r.Check(key+":after-decode", c06InstrDominates(rf.dec, use), r.Where(use), "the root's field is read after the reply was decoded into it")
+}
+
+// toCaller renders an origin term of the frame of the function issuing the RPC in the getter's frame: parameter
+// pN becomes the origin term of argument N of the getter's call (identity when the RPC is issued by the getter).
+func (rf *rootFetch) toCaller(r *Run, term string) string {
+	if rf.call == nil {
+		return term
+	}
+	var args []string
+	for _, a := range CallArgs(rf.call) {
+		args = append(args, r.D.D(a))
+	}
+	return c06SubstParams(term, args)
+}
+
+// c06SubstParams replaces every parameter token pN of an origin term (outside string constants, not a field
+// selector) by args[N]; a parameter without argument is rendered opaque so that no expectation can match it.
+func c06SubstParams(term string, args []string) string {
+	isWord := func(c byte) bool {
+		return c == '_' || c >= '0' && c <= '9' || c >= 'a' && c <= 'z' || c >= 'A' && c <= 'Z'
+	}
+	var out []byte
+	inStr := false
+	for i := 0; i < len(term); i++ {
+		c := term[i]
+		if inStr {
+			out = append(out, c)
+			if c == '\\' && i+1 < len(term) {
+				i++
+				out = append(out, term[i])
+			} else if c == '"' {
+				inStr = false
+			}
+			continue
+		}
+		if c == '"' {
+			inStr = true
+			out = append(out, c)
+			continue
+		}
+		if c == 'p' && (i == 0 || !isWord(term[i-1]) && term[i-1] != '.' && term[i-1] != '#' && term[i-1] != '@') {
+			j := i + 1
+			n := 0
+			for j < len(term) && term[j] >= '0' && term[j] <= '9' {
+				n = n*10 + int(term[j]-'0')
+				j++
+			}
+			if j > i+1 && (j == len(term) || !isWord(term[j])) {
+				if n < len(args) {
+					out = append(out, args[n]...)
+				} else {
+					out = append(out, fmt.Sprintf("opaque:param%d", n)...)
+				}
+				i = j - 1
+				continue
+			}
+		}
+		out = append(out, c)
+	}
+	return string(out)
+}
+
+// c06InstrDominates: a executes before b on every path to b.
+func c06InstrDominates(a, b ssa.Instruction) bool {
+	if a.Block() == b.Block() {
+		for _, in := range a.Block().Instrs {
+			if in == a {
+				return true
+			}
+			if in == b {
+				return false
+			}
+		}
+		return false
+	}
+	return a.Block().Dominates(b.Block())
+}
+
+// c06ReturnedValue is result i of a return; when the function spills its results to result variables (it has a
+// deferred call), the value is the one the return statement stored into the variable in the returning block.
+func c06ReturnedValue(ret *ssa.Return, i int) ssa.Value {
+	v := ret.Results[i]
+	ld, ok := v.(*ssa.UnOp)
+	if !ok {
+		return v
+	}
+	a, ok := ld.X.(*ssa.Alloc)
+	if !ok {
+		return v
+	}
+	var last ssa.Value
+	for _, in := range ret.Block().Instrs {
+		if in == ssa.Instruction(ld) {
+			break
+		}
+		if st, ok := in.(*ssa.Store); ok && st.Addr == ssa.Value(a) {
+			last = st.Val
+		}
+	}
+	if last != nil {
+		return last
+	}
+	return v
+}
+
+// c06Built: the local in which the struct a call receives was built.  When the value handed to the call (by
+// address or boxed) lives in a local that is nothing but a whole-value copy of another local — written by exactly
+// one store of the whole struct that is executed before the call on every path, never written field by field, its
+// address given to nothing but this call, and no write into the source can execute after the copy — the call sees the contents
+// of the source as they were built, and the source (chased through further copies) is returned; otherwise v itself.
+func c06Built(v ssa.Value, at ssa.CallInstruction) ssa.Value {
+	a := baseAlloc(v)
+	for i := 0; i < 4 && a != nil; i++ {
+		src := c06WholeCopyOf(a, at)
+		if src == nil {
+			return a
+		}
+		a = src
+	}
+	if a == nil {
+		return v
+	}
+	return a
+}
+
+func c06WholeCopyOf(a *ssa.Alloc, at ssa.CallInstruction) *ssa.Alloc {
+	if _, ok := a.Type().(*types.Pointer).Elem().Underlying().(*types.Struct); !ok {
+		return nil
+	}
+	var st *ssa.Store
+	ok := true
+	var visit func(addr ssa.Value, top bool)
+	visit = func(addr ssa.Value, top bool) {
+		refs := addr.Referrers()
+		if refs == nil {
+			ok = false
+			return
+		}
+		for _, ref := range *refs {
+			switch x := ref.(type) {
+			case *ssa.DebugRef:
+			case *ssa.UnOp:
+				if x.Op != token.MUL {
+					ok = false
+				}
+			case *ssa.FieldAddr:
+				visit(x, false)
+			case *ssa.Store:
+				if !top || x.Addr != addr || x.Val == addr || st != nil {
+					ok = false // a field written separately, the address stored away, or a second whole store
+				}
+				st = x
+			case *ssa.MakeInterface, *ssa.ChangeType:
+				// the address boxed for the call under consideration only
+				for _, r2 := range *x.(ssa.Value).Referrers() {
+					if _, dbg := r2.(*ssa.DebugRef); !dbg && r2 != ssa.Instruction(at) {
+						ok = false
+					}
+				}
+			default:
+				if ref != ssa.Instruction(at) {
+					ok = false
+				}
+			}
+		}
+	}
+	visit(a, true)
+	if !ok || st == nil {
+		return nil
+	}
+	u, isLoad := st.Val.(*ssa.UnOp)
+	if !isLoad || u.Op != token.MUL {
+		return nil
+	}
+	src, isAlloc := u.X.(*ssa.Alloc)
+	if !isAlloc || !c06NoWriteAfter(src, st) || !c06InstrDominates(st, at) {
+		return nil
+	}
+	return src
+}
+
+// c06NoWriteAfter: no instruction that writes into local src (a store to it or to a part of it, or anything its
+// address is handed to) can execute after the copy cp; the address itself is never stored away.
+func c06NoWriteAfter(src *ssa.Alloc, cp *ssa.Store) bool {
+	after := map[*ssa.BasicBlock]bool{} // blocks that can execute after cp's block was left
+	work := append([]*ssa.BasicBlock{}, cp.Block().Succs...)
+	for len(work) > 0 {
+		b := work[len(work)-1]
+		work = work[:len(work)-1]
+		if !after[b] {
+			after[b] = true
+			work = append(work, b.Succs...)
+		}
+	}
+	okAll := true
+	var visit func(addr ssa.Value)
+	visit = func(addr ssa.Value) {
+		refs := addr.Referrers()
+		if refs == nil {
+			okAll = false
+			return
+		}
+		for _, ref := range *refs {
+			switch x := ref.(type) {
+			case *ssa.DebugRef:
+			case *ssa.UnOp:
+				if x.Op != token.MUL {
+					okAll = false
+				}
+			case *ssa.FieldAddr:
+				visit(x)
+			case *ssa.IndexAddr:
+				visit(x)
+			default:
+				if s, isStore := ref.(*ssa.Store); isStore && s.Val == addr {
+					okAll = false
+				}
+				if after[ref.Block()] || ref.Block() == cp.Block() && instrIdx(ref) > instrIdx(cp) {
+					okAll = false
+				}
+			}
+		}
+	}
+	visit(src)
+	return okAll
 }
